@@ -42,7 +42,7 @@ PROPERTY_META = {
                 assumptions=['reseed counter < 2^31 - 600 (the int counter does not overflow)', 'bn_mod_basic: ASSUMED contract |result| < |modulus| (division not verified)']),
     'C19': dict(not_covered='nesting shapes other than the enforced ones (one and three nested blocks without throw, throw in the inner of two blocks with a swallowing resp. re-throwing handler); the second return of setjmp is a scripted model (harness/err_shapes.c), not CBMC semantics; '
                 'per-thread contexts (MULTI build); re-parameterisation equals fresh initialisation'),
-    'C20': dict(not_covered='every ladder / regular-recoding algorithm except ep_mul_monty and bn_mxp_monty (fp_exp_monty, ep_mul_lwreg, ed/eb/ep2 forms, gt_exp_sec); the callees of the ladder are trusted constant-time as units; '
+    'C20': dict(not_covered='every ladder / regular-recoding algorithm except ep_mul_monty, bn_mxp_monty and ep_mul_lwreg with both workers (not: fp_exp_monty, bn_rec_reg itself, ed/eb/ep2 forms, gt_exp_sec); the callees of the ladder are trusted constant-time as units; '
                 'memory-address traces and what the compiler does to the source; goto-level branches only (a pure ?: or comparison expression counts as a select)'),
 }
 
